@@ -180,24 +180,35 @@ def _rel(t, T):
     rel = t["rel"]
     g, kw = _formula(t, T)
     lam = t["wavelength"]
-    a = P.neutron_scattering(g, density=g.density, wavelength=lam)
+    how = t.get("how", "density")
+
+    def call(obj, k=1.0, **wkw):
+        """the calculator with the task's density given in the task's way, scaled by k"""
+        if how == "density":
+            return P.neutron_scattering(obj, density=g.density * k, **wkw)
+        if how == "natural":            # natural_density= on a formula without density
+            return P.neutron_scattering(obj, natural_density=t["density"] * k, **wkw)
+        # natural_density= on a Formula that carries some other density: the keyword wins
+        return P.neutron_scattering(P.formula(obj, density=t.get("carried", 3.3)), natural_density=t["density"] * k, **wkw)
+    g0 = g if how == "density" else build(t["compound"], T)
+    a = call(g0, wavelength=lam)
     ev = {"ev": "rel", "id": t["id"], "rel": rel, "a": out7(a)}
     if rel == "density":
         k = t["k"]
-        b = P.neutron_scattering(g, density=g.density * k, wavelength=lam)
+        b = call(g0, k, wavelength=lam)
         ev["k"] = dec.to_dec(k)
     elif rel in ("cell", "regroup", "permute"):
         h = build(t["variant"], T)
-        b = P.neutron_scattering(h, density=g.density, wavelength=lam)
+        b = call(h, wavelength=lam)
     elif rel == "energy":
         from periodictable import nsf
         E = float(nsf.neutron_energy(lam))
-        b = P.neutron_scattering(g, density=g.density, energy=E)
+        b = call(g0, energy=E)
     elif rel == "vector":
         ws = t["vector"]
         i = t["index"]
-        bb = P.neutron_scattering(g, density=g.density, wavelength=np.array(ws))
-        a = P.neutron_scattering(g, density=g.density, wavelength=ws[i])
+        bb = call(g0, wavelength=np.array(ws))
+        a = call(g0, wavelength=ws[i])
         ev["a"] = out7(a)
         ev["b"] = out7(bb, i)
         shape_ok = bb[0] is None or all(np.shape(x) == (len(ws),) for x in list(bb[0]) + list(bb[1]) + [bb[2]])
